@@ -19,6 +19,53 @@ CHECKS = {
         note=TB + "C16: choice-map leaves are opaque payloads; vectorised and Cond-merged leaves are covered by the correspondence run only.",
         technique="Lean 4 proof (structural/functional induction) + exhaustive differential correspondence with the implementation",
         design="§3 C16"),
+    "C01": dict(
+        text="Lean theorems over the deep-embedded modelling language (every program incl. Vmap/Scan/Cond, every argument list, "
+             "arbitrary primitive densities/samplers, weights in any additive commutative group): every trace simulate builds is structurally "
+             "coherent; a coherent trace reports score = -assess(its choices) and the same return value (proved for Cond-free programs; "
+             "Cond by correspondence). Tie: random typed programs executed on the real genjax (seed(simulate), assess) and on the compiled "
+             "Lean model with exact-rational probe distributions, plus an independent reference semantics.",
+        note=TB + "C01: the sampling half (choices distributed by that density) rests on the sampler contract of the primitives (C13/C07); "
+             "probe samplers are deterministic functions of their parameters so the model can predict every draw.",
+        technique="Lean 4 proof (mutual structural induction on programs) + differential correspondence on generated programs",
+        design="§3 C01"),
+    "C02": dict(
+        text="Lean theorems: generate returns a coherent trace for every constraint map; weight 0 without constraints; weight = minus the scores "
+             "of exactly the constrained leaves (GF.cw) for every program; score = -assess(choices) (Cond-free). Tie: generate on the real code for "
+             "all/none/partial constraint subsets of generated programs vs the Lean model and the reference semantics.",
+        note=TB + "C02: E[exp w] = marginal is not formalised (follows from the weight identity plus the sampler contract).",
+        technique="Lean 4 proof + differential correspondence over constraint subsets",
+        design="§3 C02"),
+    "C03": dict(
+        text="Lean theorems: update returns a coherent trace under the new args; weight = score(old) - score(new) for every program incl. Cond branch "
+             "switches (repaired code = spec variant) and for the pre-repair variant when no Cond switches; in assess terms for Cond-free programs. "
+             "Tie: update sequences with arg changes / constraint subsets / discard round trip on the real code vs model and reference.",
+        note=TB + "C03: 'keeps unconstrained values' and the discard round trip are checked by the monitors on the implementation, not proved.",
+        technique="Lean 4 proof + differential correspondence incl. round trips",
+        design="§3 C03"),
+    "C04": dict(
+        text="Lean theorems: regenerate returns a coherent trace; weight formula (change of joint minus change of selected prior) when no Cond "
+             "switches; empty selection + same args => weight 0 and the identical trace (canonical traces; all ops produce canonical traces); all "
+             "selected => weight 0; proved counterexamples for the dropped hypotheses; pre-repair Scan.regenerate undefined. Tie: regenerate with "
+             "generated selection expressions on the real code (incl. definedness) vs model and reference.",
+        note=TB + "C04: 'selected choices are fresh draws from the conditional prior' is checked with probe samplers by the monitors.",
+        technique="Lean 4 proof + differential correspondence over selections",
+        design="§3 C04"),
+    "C05": dict(
+        text="Lean theorems: coherence is preserved by any finite history of update/regenerate steps (induction over the op list) and by the "
+             "kernels' accept/reject select; update weights telescope. Tie: random op histories on the real code, every intermediate trace "
+             "compared with the Lean model and re-assessed by the reference semantics.",
+        note=TB + "C05: kernels (mh/mala/hmc), lane indexing and jit round trips are covered by the correspondence run on a real-distribution model.",
+        technique="Lean 4 proof (invariant by induction over histories) + differential correspondence on op sequences",
+        design="§3 C05"),
+    "C12": dict(
+        text="Lean theorems over any linearly ordered floor field, all weight vectors (non-negative, positive sum), all N, all offsets u in (0,1): "
+             "ancestor indices valid, copies sum to N, floor/ceil bound, closed-form copy count, estimate invariance of resample, faithful copy, "
+             "diagnostic weights. Tie: seed(resample) on rational weight vectors, offset recovered from the key, indices vs the Lean model; "
+             "copy-consistency of every trace leaf; calibrated expectation test for both methods.",
+        note=TB + "C12: E[copies]=N w_i is proved up to the closed form in u (integration step cited); categorical draws are TFP's (trusted), checked statistically at z=5.5.",
+        technique="Lean 4 + Mathlib proof + differential correspondence with recovered randomness",
+        design="§3 C12"),
 }
 
 NOT_YET = "check not built yet in this session (planned, see DESIGN.md §3/§6); not claimed"
